@@ -159,7 +159,11 @@ fn plan10(seed: u64, run: u64, tier: Tier) -> Plan10 {
     let ref_text;
     let ref_kind;
     // `?` and `#` are legal in file and folder names
-    let url_name = *rng.pick(&["a.js.map", "maps/a.js.map", "../maps/out.map", "./x.map", "maps/what?.js.map", "issue#4711/a.js.map", "a.js.map?v=1"]);
+    // long names: more than 255 bytes of short components; non-ASCII letters at every byte offset
+    let long_ascii = format!("{}x.js.map", "ab/".repeat(rng.range(86, 120)));
+    let long_unicode = format!("{}maps/{}/app.js.map", "p".repeat(rng.below(9)), "\u{e9}quipe-donn\u{e9}es-r\u{e9}f\u{e9}rentiel-g\u{e9}n\u{e9}r\u{e9}s-\u{5171}\u{4eab}".repeat(rng.range(1, 3)));
+    let url_pool: [&str; 9] = ["a.js.map", "maps/a.js.map", "../maps/out.map", "./x.map", "maps/what?.js.map", "issue#4711/a.js.map", "a.js.map?v=1", &long_ascii, &long_unicode];
+    let url_name: &str = url_pool[rng.below(url_pool.len())];
     // in a minority of runs the program contains literals that merely look like the comment
     let lookalike = rng.chance(1, 8);
     match rng.below(16) {
@@ -173,8 +177,11 @@ fn plan10(seed: u64, run: u64, tier: Tier) -> Plan10 {
                 "data:application/json;charset=utf-8;base64,",
                 "data:application/json;charset=UTF-8;base64,",
                 "data:application/json;charset=utf8;base64,",
+                "data:application/json;Charset=utf-8;base64,",
+                "data:application/json;CHARSET=UTF-8;base64,",
+                "data:application/json; charset=utf-8;base64,",
             ]);
-            ref_kind = if preamble.contains("charset") { "inline-charset" } else { "inline" };
+            ref_kind = if preamble.to_ascii_lowercase().contains("charset") { "inline-charset" } else { "inline" };
             ref_text = format!("\n//# sourceMappingURL={}{}\n", preamble, b64_encode(ojson.as_bytes()));
             orig_map = Some(ojson.clone());
         }
@@ -613,6 +620,8 @@ impl Engine for C10 {
                 let clean = match run(&cfg, p.prng_seed, &with_ref, &p.file, &p.fs, &clean_plan) {
                     Ok(o) => o,
                     Err(e) => {
+                        // the program alone was rewritten: with the reference there must be content too
+                        viol.push(Violation::new("K1", "K1:no-content", format!("[ref={} chain={chain} comments={comments}] the program alone is rewritten, with the reference comment the call produces no content: {}", p.ref_kind, e.chars().take(160).collect::<String>())));
                         rep.notes.push(format!("clean call failed: {}", e.chars().take(80).collect::<String>()));
                         continue;
                     }
